@@ -4,7 +4,7 @@
    (_check_and_fire_on_done), Exec.complete (_complete), Macro.sync_send /
    async_send.  Tied to the code by K-macro on completion machines
    (harness/props/c10.py). *)
-From XSM Require Import Model.Macro Proofs.TreeP Proofs.DoneP Proofs.GeomBridge Proofs.DoneBridge Model.TreeLib Gen.GenGeom.
+From XSM Require Import Model.Macro Proofs.TreeP Proofs.DoneP Proofs.GeomBridge Proofs.DoneBridge Proofs.LifeBridge Model.TreeLib Gen.GenGeom.
 
 (* done-ness is exactly: final; compound with a done active child; parallel with
    EVERY non-history region active and done (history children are not regions) *)
@@ -49,6 +49,14 @@ Theorem C10_fire_acts_on_the_decision : forall eng pr m fin s,
   end.
 Proof. exact fire_on_done_decides. Qed.
 Print Assumptions C10_fire_acts_on_the_decision.
+
+(* ... and "sets the status to done exactly once": _complete (shared by both engines) ignores the call unless the status is
+   `running` - the test it starts with, re-translated from the current source - which is the model's `complete` *)
+Theorem C10_complete_test_is_the_source : forall m out s,
+  (GenGeom.complete_ignored m (status_name (s_status s)) = true -> complete out s = s) /\
+  (GenGeom.complete_ignored m (status_name (s_status s)) = false -> s_status (complete out s) = Done /\ s_output (complete out s) = out).
+Proof. exact complete_ignored_bridge. Qed.
+Print Assumptions C10_complete_test_is_the_source.
 
 (* never while any region is not final ... *)
 Theorem C10_parallel_all : forall m C p r,
